@@ -986,3 +986,8 @@ Proof.
     change (Z.max (Z.of_nat (len / S nc')) 1) with (Z.max (Z.of_nat (len / S nc')) (Z.of_nat 1)).
     rewrite <- Nat2Z.inj_max. apply Nat2Z.id.
 Qed.
+
+(* tie T: the comparison of downsampleRawLoop's batch-extension loop in the Go source is the
+   inclusive `<=` the model's take_le uses (curW is the window's last millisecond) *)
+Lemma ext_take_model : forall t w, ext_take t w = (t <=? w).
+Proof. intros t w. reflexivity. Qed.
